@@ -1,3 +1,4 @@
+import Pcore.Model.ValueEqVer
 /-!
 # Model of value equality and hash keys (property C07)  — core Lean only
 
@@ -28,6 +29,13 @@ Mirrors the Go code of /repo **as it is now** (after the `fix:` commits), functi
 | `XxxType.Equals / Parameters` for Any Undef String Integer Float Enum Array Variant Tuple Optional Type | `tyEq`, `tyEqR`, `tyKey` |
 | `px/equality.go        IncludesAll` (the *other* list's member receives the call) | `anyL`, `inclR`        |
 | `types/types.go        px.ToKey`                                              | `key`                        |
+| `types/uritype.go      UriValue.Equals / ToKey` (`URL().String()`)            | `veq`, `kb` (`.uri`)         |
+| `types/semvertype.go   SemVer.Equals / ToKey` (`Version.Equals`, `Version.ToString`) | `veq`, `kb` (`.semver`), `ValueEqVer.verEq/verStr` |
+| `types/semverrangetype.go SemVerRange.Equals / ToKey` (`VersionRange.Equals`; the key is `ToString`: the ORIGINAL string) | `veq`, `kb` (`.vrange`), `ValueEqVer.rangesEq/rangeStr` |
+| `types/typedname.go    typedName.Equals` (`MapKey() ==`), no `ToKey`           | `veq` (`.tname`), `mkTname`  |
+| `types/deferred.go     deferred.Equals` (name and the arguments as an Array), no `ToKey` | `veq` (`.deferred`)  |
+| `internal/parameter.go parameter.Equals` (name, captures, HasValue, type, Value()), no `ToKey` | `veq` (`.param`) |
+| `types/types.go        appendKey` last arm (`INVALID_MAP_KEY` for a value without `ToKey`) | `keyable`            |
 
 Quirks reproduced on purpose: a top-level string is keyed by its raw bytes (so it can collide with another value's key:
 known finding C07-raw-string-key); `Variant`/`Enum` equality ignores member order while their keys do not (known finding
@@ -39,12 +47,15 @@ Go runtime faults: `px.ToKey` of a value that contains a `Sensitive` panics with
 answers `none` exactly then (`keyable`).  `Equals`, `Get`, `Unique` reach that panic only through a Hash *key* that
 contains a Sensitive (`hashKeysKeyable`); the driver prints `unkeyable` for such operands (so does the harness).
 
-Not modelled (no theorem speaks about them): SemVer, SemVerRange, URI values, objects, and every
+A SemVerRange is keyed by the string it was parsed from (`versionRange.ToString`), while `Equals` compares the parsed ranges:
+`1.x` and `>=1.0.0 <2.0.0` are Equal and have different keys (mirrored; see the finding C07-semver-range-original-key).
+TypedName, Deferred and Parameter values have no `ToKey`: `px.ToKey` reports `INVALID_MAP_KEY` for them (and for every
+container that holds one), exactly as for a Sensitive — but they do have an `Equals`.
+
+Not modelled (no theorem speaks about them): object instances, and every
 type other than the eleven above (in particular the String types with a size or a value, Struct, Hash, Pattern, Object).
 -/
 namespace Pcore.ValueEq
-
-abbrev Bytes := List UInt8
 
 /-! ## leaf encodings -/
 
@@ -308,6 +319,12 @@ inductive Val where
   | typ (t : Ty)
   | timespan (nanos : Int)
   | timestamp (secs nanos : Int)
+  | uri (s : Bytes)                                   -- `URL().String()`
+  | semver (v : Ver)
+  | vrange (orig : Bytes) (rs : List ARange)          -- the original string (`[]` = none) and the parsed ranges
+  | tname (auth ns name : Bytes)
+  | deferred (name : Bytes) (args : List Val)
+  | param (name : Bytes) (t : Ty) (hasV : Bool) (v : Val) (capt : Bool)   -- `v` = `Value()`: `undef` when there is none
   deriving Inhabited
 
 /-- `appendElementKey` marks a string element -/
@@ -333,6 +350,12 @@ def kb : Val → Bytes
   | .typ t => tyKey t
   | .timespan n => timespanKey n
   | .timestamp s n => timestampKey s n
+  | .uri s => [1, 0x55] ++ s
+  | .semver v => [1, 0x76] ++ verStr v
+  | .vrange orig rs => [1, 0x52] ++ rangeStr orig rs
+  | .tname _ _ _ => []
+  | .deferred _ _ => []
+  | .param _ _ _ _ _ => []
 /-- the framed element keys of an array, concatenated -/
 def kbL : List Val → Bytes
   | [] => []
@@ -350,6 +373,9 @@ mutual
 /-- `px.ToKey` does not panic -/
 def keyable : Val → Bool
   | .sensitive _ => false
+  | .tname _ _ _ => false
+  | .deferred _ _ => false
+  | .param _ _ _ _ _ => false
   | .array vs => keyableL vs
   | .hash es => keyableE es
   | .entry k v => keyable k && keyable v
@@ -405,6 +431,15 @@ def veq : Val → Val → Bool
   | .typ a, y => match y with | .typ b => tyEq a b | _ => false
   | .timespan a, y => match y with | .timespan b => tsSecs a == tsSecs b | _ => false
   | .timestamp s n, y => match y with | .timestamp s' n' => s == s' && n == n' | _ => false
+  | .uri a, y => match y with | .uri b => a == b | _ => false
+  | .semver a, y => match y with | .semver b => verEq a b | _ => false
+  | .vrange _ rs, y => match y with | .vrange _ rs' => rangesEq rs rs' | _ => false
+  | .tname a n m, y => match y with | .tname a' n' m' => mapKey a n m == mapKey a' n' m' | _ => false
+  | .deferred n as, y => match y with | .deferred n' as' => n == n' && (as.length == as'.length && veqL as as') | _ => false
+  | .param n t h v c, y =>
+      match y with
+      | .param n' t' h' v' c' => n == n' && c == c' && h == h' && tyEq t t' && veq v v'
+      | _ => false
 /-- pointwise `vs[i].Equals(ws[i])` (lengths already compared) -/
 def veqL : List Val → List Val → Bool
   | [], _ => true
@@ -443,6 +478,8 @@ def hashKeysKeyable : Val → Bool
   | .hash es => hashKeysKeyableE es
   | .entry k v => hashKeysKeyable k && hashKeysKeyable v
   | .sensitive v => hashKeysKeyable v
+  | .deferred _ as => hashKeysKeyableL as
+  | .param _ _ _ v _ => hashKeysKeyable v
   | _ => true
 def hashKeysKeyableL : List Val → Bool
   | [] => true
@@ -459,12 +496,13 @@ def mkVar : List Ty → Ty
   | [t] => t
   | ts => .var ts
 
-def lowerByte (b : UInt8) : UInt8 := if 0x41 ≤ b ∧ b ≤ 0x5a then b + 0x20 else b
-
 /-- `NewEnumType`: no values → the default Enum (whatever the flag); values are lower-cased when case-insensitive
     (ASCII only in the model; the generator keeps to ASCII) -/
 def mkEnum (ci : Bool) (vals : List Bytes) : Ty :=
   if vals.isEmpty then .enum false [] else .enum ci (if ci then vals.map (·.map lowerByte) else vals)
+
+/-- `newTypedName2`: one leading `::` of the name is dropped -/
+def mkTname (auth ns name : Bytes) : Val := .tname auth ns (trimColons name)
 
 /-- `NewTupleType`: no types and no size is the empty tuple `Tuple[0, 0]` (pcore fix 902262f); every other
     combination is kept as given (`Tuple[0, default]` without types is the default tuple, the same term) -/
